@@ -582,7 +582,7 @@ def no_panic(ctx, f, cfg):
         if ps.discharge_local(s):
             continue
         atoms = site_atoms(f, s)
-        if table_row(s, atoms) or ps.discharge_in_context(s):
+        if table_row(s, atoms, f) or ps.discharge_in_context(s):
             continue
         und += 1
         ctx.violation("C19.no-panic", "C19.no-panic|%s|%s|%s" % (b.path.replace("core::", "", 1), s["kind"], _origin_key(atoms)),
